@@ -205,6 +205,32 @@ def run(rep):
                 ok = True
             elif c["op"] == "Le" and r.get("k") == "Var" and r.get("id") == rbp_id and call_is(l, "Token::binding_power"):
                 ok = True
+        if not ok:
+            # the same test spelled as the loop's continue condition: `while it.peek().is_some_and(|next| rbp < next.binding_power())`
+            MIRROR = {"Lt": "Gt", "Gt": "Lt", "Le": "Ge", "Ge": "Le"}
+            for n, path in walk_with_path(body):
+                if n.get("k") != "Binary" or n["op"] not in MIRROR:
+                    continue
+                l, r = q.resolve(body, n["lhs"]), q.resolve(body, n["rhs"])
+                if l.get("k") in ("Var", "Upvar") and l.get("id") == rbp_id and call_is(r, "Token::binding_power"):
+                    op = n["op"]
+                elif r.get("k") in ("Var", "Upvar") and r.get("id") == rbp_id and call_is(l, "Token::binding_power"):
+                    op = MIRROR[n["op"]]
+                else:
+                    continue
+                detail = show(n)
+                nots = sum(1 for p_ in path if p_.get("k") == "Unary" and p_.get("op") == "Not" and q.contains(p_, n))
+                gov = [p_ for p_ in path if p_.get("k") == "If" and q.contains(p_["cond"], n)]
+                if not gov:
+                    continue
+                g = gov[0]  # the outermost condition the comparison is part of
+                leaves_then = any(x.get("k") == "Break" for x in walk(g["then"]))
+                leaves_else = g.get("else") is not None and any(x.get("k") == "Break" for x in walk(g["else"]))
+                # every other way the condition can be false must also leave (`None => false`): it is a conjunction / Some-arm of the test
+                if leaves_else and not leaves_then and ((op == "Lt") != (nots % 2 == 1)) and (nots % 2 == 0 or op == "Ge"):
+                    ok = True
+                elif leaves_then and not leaves_else and ((op == "Ge") != (nots % 2 == 1)) and (nots % 2 == 0 or op == "Lt"):
+                    ok = True
         rep.check(ok, "ASSOC", "ASSOC/break-test", pe.sp, "loop breaks iff right_binding_power >= next.binding_power()", detail)
         # skeleton: first statement binds parse_nud(it)?, loop body assigns left = parse_led(left, it)?
         stm = body.get("stmts", [])
